@@ -95,6 +95,7 @@ class World:
         self.fired = None          # (function, kind)
         self.raised = None
         self.log = []
+        self.quiet_gone = False
 
     def arm(self, site, err):
         self.armed, self.site, self.err, self.calls = True, site, err, 0
@@ -145,8 +146,22 @@ def is_nsp_error(name, kind):
     return name == "ESRCH" or (name == "ENOENT" and (CFG["procfs"] or kind == "procfs"))
 
 
+# BSD natives that give an empty answer, not ESRCH, for a PID that has vanished (the reason
+# psutil re-probes the process after them)
+EMPTY_WHEN_GONE = {"openbsd": {"net_connections", "proc_threads"}, "netbsd": {"net_connections", "proc_num_fds"},
+                   "freebsd": {"net_connections", "proc_net_connections"}}
+
+
+def empty_when_gone(fn, pid):
+    return (getattr(W, "quiet_gone", False) and pid == W.pid and W.state == "gone"
+            and fn in EMPTY_WHEN_GONE.get(PLAT, ()))
+
+
 def access(fn, kind, pid, survives_zombie=False):
     """Every per-process native access goes through here."""
+    if empty_when_gone(fn, pid):
+        W.log.append(fn + ":empty")
+        return
     if W.armed and pid == W.pid:
         W.calls += 1
         W.log.append(fn)
@@ -252,6 +267,8 @@ def cext_handler(name, a, k):
                 pid = None
         if pid is not None:
             access(name, "sys", pid, survives_zombie=name in KINFO)
+            if empty_when_gone(name, pid):
+                return 0 if name == "proc_num_fds" else []
     key = fam + "." + name
     if key in CFG["slots"]:
         if key in CFG["scalars"]:
@@ -587,6 +604,35 @@ def run_row(psutil, mod, row):
                 return call(target, row["m"], table)
         r = outcome(fn)
         r["cached"] = cached
+        r.update(world_info())
+        return r
+    if k == "vanished":
+        # the process is looked at while alive (inside a oneshot() block when asked), exits and is
+        # reaped, and then the method is called on the same object
+        W.reset(row["pid"], False, True, row.get("name", PROCNAME), row.get("scale", 1))
+        pkg = row.get("via") == "package"
+        target = psutil.Process(row["pid"]) if pkg else mod.Process(row["pid"])
+        table = PUBLIC_CALLS if pkg else MODULE_CALLS
+        if not pkg:
+            target._name = CACHED
+
+        def body():
+            call(target, "ppid", table)            # fills whatever a oneshot() block memoises
+            W.state, W.quiet_gone = "gone", True
+            return call(target, row["m"], table)
+
+        def fn():
+            if not row.get("oneshot"):
+                return body()
+            if pkg:
+                with target.oneshot():
+                    return body()
+            target.oneshot_enter()
+            try:
+                return body()
+            finally:
+                target.oneshot_exit()
+        r = outcome(fn)
         r.update(world_info())
         return r
     if k == "platform":
